@@ -45,8 +45,11 @@ def cone(F):
         elif tr == "statistics::numeric_traits::CastF64":
             entries.append(b.key)
     # user callables stored in a built model are reached through dyn Fn: the wrapper closures and the arity dispatch
+    # = every closure that is boxed as a `dyn Fn` basis function (found by the type it is coerced to, not by the name
+    #   of the function that creates it)
+    boxing_roots = set(b.key for b in F.bodies.values() if b.kind != "Closure" and "dyn for<'a, 'b> std::ops::Fn" in (b.j.get("output", "") or ""))
     for b in F.bodies.values():
-        if b.kind == "Closure" and (b.j.get("root", "").endswith("create_wrapped_basis_function") or b.j.get("root", "").endswith("parameter_independent")):
+        if b.kind == "Closure" and (b.j.get("root", "") in boxing_roots or b.j.get("root", "").endswith("create_wrapped_basis_function") or b.j.get("root", "").endswith("parameter_independent")):
             entries.append(b.key)
         if b.j.get("impl", {}).get("trait") == TRAIT_BF:
             entries.append(b.key)
@@ -94,7 +97,51 @@ TABLE = [
     ("LevMarProblem<Model, false, PAR>>::weighted_data", "assert_failed", 1, "debug assert: single-rhs data matrix has one column (R-OBS-RESHAPE)"),
     (" as basis_function::BasisFunction<", "panic_fmt", 1, "arity mismatch panic: the wrapper passes exactly index_mapping.len() == ARGUMENT_COUNT arguments (check_parameter_count at build, R-BUILD-GUARDS)"),
     ("create_wrapped_basis_function::{closure#0}", "bounds-check", 1, "params[mapping[f]]: mapping holds positions in the model parameter list and SeparableModel::eval guards len(params) == |names| (R-MODEL-GUARDS)"),
+    # the same reviewed sites, addressed independently of the names of private helpers:
+    #   via:<s>   the site sits in a private helper and every function with a stable (pub / pub(crate) / trait) name
+    #             from which that helper is reached contains <s>
+    #   role:<r>  the site sits in a function with that structural role
+    ("via:_variance", "panic", 2, "internal range asserts of the helper behind the two variance accessors: called only with [0,|B|) and [|B|,|B|+|P|) on the diagonal of the (|B|+|P|)-square covariance (R-VAR-SLICES)"),
+    ("via:_variance", "index-call", 1, "idx + start < end ≤ nrows by the two preceding assertions"),
+    ("via:correlation_matrix", "assert_failed", 1, "squareness assert: the covariance is an inverse of HᵀH, square by construction"),
+    ("via:correlation_matrix", "index-call", 5, "indices are loop variables of 0..nrows/0..ncols of a matrix allocated with the covariance's shape (R-CORRELATION)"),
+    ("via:FitStatistics<Model>>::try_calculate", "assert_failed", 1, "row-count assert of the column concatenation: both blocks have |S| rows for a model honouring the shape contract (allocation checked by R-MODEL-JAC)"),
+    ("role:boxed-callable", "bounds-check", 1, "params[mapping[f]] in the closure boxed as the model's basis function: mapping holds positions in the model parameter list and SeparableModel::eval guards len(params) == |names| (R-MODEL-GUARDS)"),
 ]
+
+
+def stable_name(b):
+    return b.j.get("vis") in ("pub", "crate") or "trait" in b.j.get("impl", {})
+
+
+def stable_ancestors(F, k, cone_keys):
+    """functions with a stable (non-private) name from which the private function k is reached on the cone"""
+    from rules_problem2 import local_callers
+    out, seen, work = set(), set(), [F.bodies[k].j.get("root", k)]
+    first = work[0]
+    while work:
+        x = work.pop()
+        if x in seen or x not in F.bodies:
+            continue
+        seen.add(x)
+        if x != first and stable_name(F.bodies[x]):
+            out.add(x)
+            continue
+        callers = set(c for c in local_callers(F).get(x, ()) if c in cone_keys and c != x)
+        if not callers and x != first:
+            out.add(x)
+        work.extend(callers)
+    return out
+
+
+def roles_of(F, k):
+    b = F.bodies[k]
+    roles = set()
+    if b.kind == "Closure":
+        root = F.bodies.get(b.j.get("root", ""), None)
+        if root is not None and "dyn for<'a, 'b> std::ops::Fn" in (root.j.get("output", "") or ""):
+            roles.add("boxed-callable")
+    return roles
 
 
 def site_kind(t):
@@ -184,9 +231,26 @@ def rule_panic_sites(F, ev, R, config, rule="R-PANIC-SITES"):
             # tabled?
             hit = None
             for sub, tk, mx, reason in TABLE:
-                if sub in k and tk == kind:
+                if tk != kind or sub.startswith("via:") or sub.startswith("role:"):
+                    continue
+                if sub in k:
                     hit = (sub, tk, mx, reason)
                     break
+            if hit is None:
+                rb_ = F.bodies.get(F.bodies[k].j.get("root", k), F.bodies[k])
+                anc = None
+                for sub, tk, mx, reason in TABLE:
+                    if tk != kind:
+                        continue
+                    if sub.startswith("role:") and sub[5:] in roles_of(F, k):
+                        hit = (sub, tk, mx, reason)
+                        break
+                    if sub.startswith("via:") and not stable_name(rb_):
+                        if anc is None:
+                            anc = stable_ancestors(F, k, cn)
+                        if anc and all(sub[4:] in a for a in anc):
+                            hit = (sub, tk, mx, reason)
+                            break
             if hit is None and F.bodies[k].kind != "Closure":
                 # a reviewed site moved into a private helper: covered when EVERY function that calls the helper
                 # (on the cone) is covered by one and the same table entry for this kind of site
